@@ -273,12 +273,16 @@ func runRetryOne(o retryOp) (ans, oracle string, witness bool, hits []string) {
 		}
 		k := e.call
 		first := true
+		ne := rtEvent{send: true, idx: idx, addr: addr, code: code, ctxDone: cctx.Err() != nil, closed: closedFlag, batch: k}
 		for _, ev := range events {
 			if ev.send && ev.batch == k {
+				if first { // the state when the connection call started holds for every member of the batch
+					ne.ctxDone, ne.closed = ev.ctxDone, ev.closed
+				}
 				first = false
 			}
 		}
-		events = append(events, rtEvent{send: true, idx: idx, addr: addr, code: code, ctxDone: cctx.Err() != nil, closed: closedFlag, batch: k})
+		events = append(events, ne)
 		mu.Unlock()
 		if first {
 			trigger(k)
@@ -621,11 +625,13 @@ func runRetry(c *Ctx) {
 								for _, cl := range closes {
 									k++
 									full := mode == "single" || mode == "cl"
-									if c.Tier != "thorough" && !full && k%7 != 0 {
-										continue
-									}
-									if c.Tier != "thorough" && full && (kind == "m" || dis) && k%3 != 0 {
-										continue
+									if c.Tier != "thorough" && len(sc) > 1 {
+										if !full && k%15 != 0 {
+											continue
+										}
+										if full && ((kind != "r" || dis) && k%9 != 0 || k%3 != 0) {
+											continue
+										}
 									}
 									if mode == "cl" && api == "cache" && strings.Contains(sc, "A") {
 										continue
